@@ -12,7 +12,7 @@ def showPairs (l : List (Nat × Option Nat)) : String :=
 partial def loop (h : IO.FS.Stream) : IO Unit := do
   let line ← h.getLine
   if line.isEmpty then return ()
-  IO.println (showPairs (pairs (stdReduce (parseCols line))))
+  IO.println (showPairs (pairs (stdReduce ((parseCols line).dropLast))))
   loop h
 
 def main : IO Unit := do loop (← IO.getStdin)
